@@ -48,3 +48,10 @@ REG.schema("Simulator", bases=["BaseSimObj"],
 
 # ---- library objects modelled by ghost fields
 REG.schema("datetime", theta=Real)       # theta = datetime.timestamp(): seconds since the epoch (A-LIB)
+
+# ---- algorithms
+REG.schema("InfrastructureInfo", constraint_matrix=Mat, constraint_limits=Seq(Real), phases=Seq(Real), voltages=Seq(Real),
+           constraint_ids=Seq(Id), station_ids=Seq(Id), _station_ids_dict=Map(Id, Int), max_pilot=Seq(Real), min_pilot=Seq(Real),
+           allowable_pilots=Seq(Seq(Real)), is_continuous=Seq(Bool))
+REG.schema("SessionInfo", station_id=Id, session_id=Id, requested_energy=Real, energy_delivered=Real, arrival=Int, departure=Int,
+           estimated_departure=Int, current_time=Int, min_rates=Seq(Real), max_rates=Seq(Real))
